@@ -144,15 +144,17 @@ def r2_union(ctx, prog):
                 r.inst("InterpolationKeys::" + f.name, "uses " + ", ".join(sorted(set(calls))) if calls else "no mutation")
     # resets: who builds `InterpolOrLit::Interpol(..)` (MIR; a private helper with one caller counts as its caller)
     import mustlib as M
-    resets = set()
+    resets = {}
     for name, b in prog.bodies.items():
         if b.crate != "leptos_i18n_parser":
             continue
-        if any(True for _ in b.aggregates("locale::InterpolOrLit", "Interpol")):
-            resets.add(M.owner_of(prog, name).split("parse_locales::")[-1])
-    want = {"locale::InterpolOrLit::get_interpol_keys_mut", "parsed_value::ParsedValue::merge"}
+        n_sites = sum(1 for _ in b.aggregates("locale::InterpolOrLit", "Interpol"))
+        if n_sites:
+            o = M.owner_of(prog, name).split("parse_locales::")[-1]
+            resets[o] = resets.get(o, 0) + n_sites
+    want = {"locale::InterpolOrLit::get_interpol_keys_mut": 1, "parsed_value::ParsedValue::merge": 1}
     if resets != want:
-        r.viol("R2:resets", "an (empty) argument set is built in %s (expected only %s)" % (sorted(resets), sorted(want)), file=PL)
+        r.viol("R2:resets", "an (empty) argument set is built at %s (site counts; expected exactly %s)" % (resets, want), file=PL)
     else:
         r.inst("resets", "only Lit -> Interpol(default) in get_interpol_keys_mut and on a literal type mismatch (nothing collected yet in both)")
     fn = ast.fn(PL, "get_interpol_keys_mut", impl_self="InterpolOrLit")
